@@ -215,8 +215,9 @@ def gen_phase_case(rng, kind='eagle'):
     config['max_pool_size'] = pool
   if rng.random() < 0.25:
     config['explore_rate'] = 1.5
-  if rng.random() < 0.2:
-    config['infeasible_force_factor'] = 0.1
+  # infeasible_force_factor > 0 is left out (as in gen_stream_case): with an infeasible
+  # fly inserted first, FireflyPool.get_next_moving_fly_copy never terminates -- a hang,
+  # not a reproducibility matter (see proposed/C14-eagle-infeasible-fly-hang.md)
   n = rng.randint(12, 20) if pool is not None else rng.randint(24, 32)
   script = L.gen_script(rng, 2, kind)
   script['batches'] = [rng.randint(1, 8) if pool is not None else rng.randint(3, 9)
